@@ -17,6 +17,12 @@ class Protocol(ClientProtocol):
         self.session = session
         super(Protocol, self).__init__(session.ident, session.secret)
 
+    def connection_ready(self):
+        # OP_AUTH is queued: from here on the application may write
+        self.transport.when_connected.set()
+        for channel in list(self.session.subscriptions):
+            self.transport.write(msgsubscribe(self.ident, channel))
+
     def on_publish(self, ident, channel, payload):
         self.session.read_queue.put_nowait((ident, channel, payload))
 
@@ -58,8 +64,15 @@ class ClientSession(object):
     def stop(self):
         self._reactor.stop()
 
+    def _write(self, data):
+        # Nothing may precede OP_AUTH on a connection. Pick the connection's
+        # queue before checking it is ready so a reconnect cannot slip between.
+        outbox = self._reactor._outbox
+        if self._reactor.when_connected.is_set():
+            outbox.put_nowait(data)
+
     def publish(self, channel, payload):
-        self._reactor.write(msgpublish(self.ident, channel, payload))
+        self._write(msgpublish(self.ident, channel, payload))
 
     def publish_iter(self, channel, iterator):
         for payload in iterator:
@@ -67,11 +80,11 @@ class ClientSession(object):
 
     def subscribe(self, channel):
         self.subscriptions.add(channel)
-        self._reactor.write(msgsubscribe(self.ident, channel))
+        self._write(msgsubscribe(self.ident, channel))
 
     def unsubscribe(self, channel):
         self.subscriptions.discard(channel)
-        self._reactor.write(msgunsubscribe(self.ident, channel))
+        self._write(msgunsubscribe(self.ident, channel))
 
     def read(self):
         return self.read_queue.get()
